@@ -69,6 +69,10 @@ func DeserializeEncrypted(data, authKey []byte) (*Encrypted, error) {
 		return nil, err
 	}
 	keyHash := d.PopRawBytes(tl.LongLen)
+	if len(authKey) == 0 {
+		// key exchange is not finished yet. Hash of empty key is a constant which anyone can put into the packet
+		return nil, errors.New("got encrypted message, but there is no encryption key yet")
+	}
 	if !bytes.Equal(keyHash, utils.AuthKeyHash(authKey)) {
 		return nil, errors.New("wrong encryption key")
 	}
